@@ -1050,6 +1050,342 @@ theorem forModule_print_parse (fuel : Nat) (h : Handler) (C : Str → Statement)
   rcases hh with ⟨rfl, rfl⟩ | ⟨rfl, rfl⟩ <;>
     (simp only [runHandler]; rw [P.run_bind _ _ s m s' hrun]; rfl)
 
+/-! ### ALTER RETENTION POLICY
+
+The options are printed in the fixed order DURATION, REPLICATION, SHARD DURATION, DEFAULT, FUTURE
+LIMIT, PAST LIMIT; the option loop accepts them in any order, remembering the ones seen. -/
+
+/-- ` <KW> <duration>` when the option is set. -/
+def optDurText (d : Option Int) : Str :=
+  match d with
+  | some v => ' ' :: (Token.DURATION.str ++ ' ' :: formatDuration v)
+  | none => []
+
+def optReplText (n : Option Nat) : Str :=
+  match n with
+  | some v => ' ' :: (Token.REPLICATION.str ++ ' ' :: natDigits v)
+  | none => []
+
+def optShardText (sh : Option Int) : Str :=
+  match sh with
+  | some v => ' ' :: (Token.SHARD.str ++ ' ' :: (Token.DURATION.str ++ ' ' :: formatDuration v))
+  | none => []
+
+/-- ` FUTURE LIMIT <d>` / ` PAST LIMIT <d>` when the option is set and not zero. -/
+def optLimitText (t : Token) (v : Option Int) : Str :=
+  match v with
+  | some v => limitText t v
+  | none => []
+
+theorem optText_optDur (d : Option Int) : OptText (optDurText d) := by
+  cases d
+  · exact Or.inl rfl
+  · exact Or.inr ⟨_, rfl⟩
+theorem optText_optRepl (n : Option Nat) : OptText (optReplText n) := by
+  cases n
+  · exact Or.inl rfl
+  · exact Or.inr ⟨_, rfl⟩
+theorem optText_optShard (d : Option Int) : OptText (optShardText d) := by
+  cases d
+  · exact Or.inl rfl
+  · exact Or.inr ⟨_, rfl⟩
+theorem optText_optLimit (t : Token) (v : Option Int) : OptText (optLimitText t v) := by
+  cases v
+  · exact Or.inl rfl
+  · exact optText_limit t _
+
+/-- The key set of the Go map `found`. -/
+def addIf (b : Bool) (t : Token) (l : List Token) : List Token := if b then t :: l else l
+
+theorem mem_addIf (x t : Token) (b : Bool) (l : List Token) : x ∈ addIf b t l ↔ (b = true ∧ x = t) ∨ x ∈ l := by
+  unfold addIf; cases b <;> simp
+
+def setDur (o : AlterOpts) : Option Int → AlterOpts
+  | some v => { o with duration := some v }
+  | none => o
+def setRepl (o : AlterOpts) : Option Nat → AlterOpts
+  | some v => { o with replication := some (v : Int) }
+  | none => o
+def setShard (o : AlterOpts) : Option Int → AlterOpts
+  | some v => { o with shard := some v }
+  | none => o
+def setDefault (o : AlterOpts) : Bool → AlterOpts
+  | true => { o with default := true }
+  | false => o
+def setFuture (o : AlterOpts) : Option Int → AlterOpts
+  | some v => { o with future := some v }
+  | none => o
+def setPast (o : AlterOpts) : Option Int → AlterOpts
+  | some v => { o with past := some v }
+  | none => o
+
+/-- A duration option within the range `ParseDuration` returns. -/
+def DurOK (d : Option Int) : Prop := ∀ v, d = some v → 0 ≤ v ∧ v ≤ maxInt64
+
+section alter
+variable (it : Nat) (found : List Token) (o : AlterOpts) (s : PState) (rest : Str)
+
+theorem alter_dur (d : Option Int) (hd : DurOK d) (hnf : Token.DURATION ∉ found) (hit : 1 ≤ it)
+    (hs : s.Around (optDurText d ++ rest)) (hk : DurEnd rest) :
+    ∃ it' s', it - 1 ≤ it' ∧ s'.Around rest ∧
+      (alterLoop it found o).run s = (alterLoop it' (addIf d.isSome .DURATION found) (setDur o d)).run s' := by
+  cases d with
+  | none => exact ⟨it, s, by omega, hs, rfl⟩
+  | some v =>
+    obtain ⟨it, rfl⟩ : ∃ j, it = j + 1 := ⟨it - 1, by omega⟩
+    obtain ⟨lx, s1, h1, t1, _, b1⟩ := scanIW_piece s [' '] Token.DURATION.str _ .DURATION [] Gap.blank hs
+      (scansAs_kw .DURATION _ (by decide +kernel) (WordEnd.blank _))
+    obtain ⟨s2, h2, b2⟩ := parseDurationTok_piece s1 [' '] (formatDuration v) rest v (hd v rfl).1 (hd v rfl).2
+      Gap.blank b1.around (scansAs_dur v (hd v rfl).1 rest hk)
+    refine ⟨it, s2, by omega, b2.around, ?_⟩
+    conv => lhs; unfold alterLoop
+    rw [P.run_bind _ _ s lx s1 h1]
+    simp only [t1, List.contains_eq_mem, hnf, decide_false, Bool.false_eq_true, if_false]
+    rw [P.run_bind _ _ s1 v s2 h2]
+    rfl
+
+theorem alter_repl (n : Option Nat) (hn : ∀ v, n = some v → 1 ≤ v ∧ (v : Int) ≤ maxInt32)
+    (hnf : Token.REPLICATION ∉ found) (hit : 1 ≤ it)
+    (hs : s.Around (optReplText n ++ rest)) (hk : NumEnd rest) :
+    ∃ it' s', it - 1 ≤ it' ∧ s'.Around rest ∧
+      (alterLoop it found o).run s = (alterLoop it' (addIf n.isSome .REPLICATION found) (setRepl o n)).run s' := by
+  cases n with
+  | none => exact ⟨it, s, by omega, hs, rfl⟩
+  | some v =>
+    obtain ⟨it, rfl⟩ : ∃ j, it = j + 1 := ⟨it - 1, by omega⟩
+    obtain ⟨lx, s1, h1, t1, _, b1⟩ := scanIW_piece s [' '] Token.REPLICATION.str _ .REPLICATION [] Gap.blank hs
+      (scansAs_kw .REPLICATION _ (by decide +kernel) (WordEnd.blank _))
+    obtain ⟨s2, h2, b2⟩ := parseIntRange_piece s1 [' '] (natDigits v) rest 1 maxInt32 v (by have := (hn v rfl).1; omega)
+      (hn v rfl).2 (by have := (hn v rfl).2; unfold maxInt32 at this; unfold maxInt64; omega) Gap.blank b1.around
+      (scansAs_nat v rest hk)
+    refine ⟨it, s2, by omega, b2.around, ?_⟩
+    conv => lhs; unfold alterLoop
+    rw [P.run_bind _ _ s lx s1 h1]
+    simp only [t1, List.contains_eq_mem, hnf, decide_false, Bool.false_eq_true, if_false]
+    rw [P.run_bind _ _ s1 (v : Int) s2 h2]
+    rfl
+
+theorem alter_shard (d : Option Int) (hd : DurOK d) (hnf : Token.SHARD ∉ found) (hit : 1 ≤ it)
+    (hs : s.Around (optShardText d ++ rest)) (hk : DurEnd rest) :
+    ∃ it' s', it - 1 ≤ it' ∧ s'.Around rest ∧
+      (alterLoop it found o).run s = (alterLoop it' (addIf d.isSome .SHARD found) (setShard o d)).run s' := by
+  cases d with
+  | none => exact ⟨it, s, by omega, hs, rfl⟩
+  | some v =>
+    obtain ⟨it, rfl⟩ : ∃ j, it = j + 1 := ⟨it - 1, by omega⟩
+    have hs' : s.Around ([' '] ++ (Token.SHARD.str ++ (' ' :: (Token.DURATION.str ++ ' ' :: (formatDuration v ++ rest))))) := by
+      simpa only [optShardText, List.append_assoc, List.cons_append, List.nil_append] using hs
+    obtain ⟨lx, s1, h1, t1, _, b1⟩ := scanIW_piece s [' '] Token.SHARD.str _ .SHARD [] Gap.blank hs'
+      (scansAs_kw .SHARD _ (by decide +kernel) (WordEnd.blank _))
+    obtain ⟨lx2, s2, h2, t2, _, b2⟩ := scanIW_piece s1 [' '] Token.DURATION.str _ .DURATION [] Gap.blank b1.around
+      (scansAs_kw .DURATION _ (by decide +kernel) (WordEnd.blank _))
+    obtain ⟨s3, h3, b3⟩ := parseShardDuration_piece s2 v rest (hd v rfl).1 (hd v rfl).2 b2.around hk
+    refine ⟨it, s3, by omega, b3.around, ?_⟩
+    conv => lhs; unfold alterLoop
+    rw [P.run_bind _ _ s lx s1 h1]
+    simp only [t1, List.contains_eq_mem, hnf, decide_false, Bool.false_eq_true, if_false]
+    rw [P.run_bind _ _ s1 lx2 s2 h2]
+    simp only [t2, if_true]
+    rw [P.run_bind _ _ s2 v s3 h3]
+    rfl
+
+theorem alter_default (b : Bool) (hnf : Token.DEFAULT ∉ found) (hit : 1 ≤ it)
+    (hs : s.Around (defaultText b ++ rest)) (hk : WordEnd rest) :
+    ∃ it' s', it - 1 ≤ it' ∧ s'.Around rest ∧
+      (alterLoop it found o).run s = (alterLoop it' (addIf b .DEFAULT found) (setDefault o b)).run s' := by
+  cases b with
+  | false => exact ⟨it, s, by omega, hs, rfl⟩
+  | true =>
+    obtain ⟨it, rfl⟩ : ∃ j, it = j + 1 := ⟨it - 1, by omega⟩
+    obtain ⟨lx, s1, h1, t1, _, b1⟩ := scanIW_piece s [' '] Token.DEFAULT.str rest .DEFAULT [] Gap.blank hs
+      (scansAs_kw .DEFAULT rest (by decide +kernel) hk)
+    refine ⟨it, s1, by omega, b1.around, ?_⟩
+    conv => lhs; unfold alterLoop
+    rw [P.run_bind _ _ s lx s1 h1]
+    simp only [t1, List.contains_eq_mem, hnf, decide_false, Bool.false_eq_true, if_false]
+    rfl
+
+theorem alter_future (d : Option Int) (hd : DurOK d) (hz : d ≠ some 0) (hnf : Token.FUTURE ∉ found) (hit : 1 ≤ it)
+    (hs : s.Around (optLimitText .FUTURE d ++ rest)) (hk : DurEnd rest) :
+    ∃ it' s', it - 1 ≤ it' ∧ s'.Around rest ∧
+      (alterLoop it found o).run s = (alterLoop it' (addIf d.isSome .FUTURE found) (setFuture o d)).run s' := by
+  cases d with
+  | none => exact ⟨it, s, by omega, hs, rfl⟩
+  | some v =>
+    obtain ⟨it, rfl⟩ : ∃ j, it = j + 1 := ⟨it - 1, by omega⟩
+    have hv : v ≠ 0 := fun e => hz (by rw [e])
+    have hs' : s.Around ([' '] ++ (Token.FUTURE.str ++ (' ' :: (Token.LIMIT.str ++ ' ' :: (formatDuration v ++ rest))))) := by
+      simpa only [optLimitText, limitText, hv, ne_eq, not_false_eq_true, if_true, List.append_assoc, List.cons_append,
+        List.nil_append] using hs
+    obtain ⟨lx, s1, h1, t1, _, b1⟩ := scanIW_piece s [' '] Token.FUTURE.str _ .FUTURE [] Gap.blank hs'
+      (scansAs_kw .FUTURE _ (by decide +kernel) (WordEnd.blank _))
+    obtain ⟨s2, h2, b2⟩ := parseWriteLimit_piece s1 v rest (hd v rfl).1 (hd v rfl).2 b1.around hk
+    refine ⟨it, s2, by omega, b2.around, ?_⟩
+    conv => lhs; unfold alterLoop
+    rw [P.run_bind _ _ s lx s1 h1]
+    simp only [t1, List.contains_eq_mem, hnf, decide_false, Bool.false_eq_true, if_false]
+    rw [P.run_bind _ _ s1 v s2 h2]
+    rfl
+
+theorem alter_past (d : Option Int) (hd : DurOK d) (hz : d ≠ some 0) (hnf : Token.PAST ∉ found) (hit : 1 ≤ it)
+    (hs : s.Around (optLimitText .PAST d ++ rest)) (hk : DurEnd rest) :
+    ∃ it' s', it - 1 ≤ it' ∧ s'.Around rest ∧
+      (alterLoop it found o).run s = (alterLoop it' (addIf d.isSome .PAST found) (setPast o d)).run s' := by
+  cases d with
+  | none => exact ⟨it, s, by omega, hs, rfl⟩
+  | some v =>
+    obtain ⟨it, rfl⟩ : ∃ j, it = j + 1 := ⟨it - 1, by omega⟩
+    have hv : v ≠ 0 := fun e => hz (by rw [e])
+    have hs' : s.Around ([' '] ++ (Token.PAST.str ++ (' ' :: (Token.LIMIT.str ++ ' ' :: (formatDuration v ++ rest))))) := by
+      simpa only [optLimitText, limitText, hv, ne_eq, not_false_eq_true, if_true, List.append_assoc, List.cons_append,
+        List.nil_append] using hs
+    obtain ⟨lx, s1, h1, t1, _, b1⟩ := scanIW_piece s [' '] Token.PAST.str _ .PAST [] Gap.blank hs'
+      (scansAs_kw .PAST _ (by decide +kernel) (WordEnd.blank _))
+    obtain ⟨s2, h2, b2⟩ := parseWriteLimit_piece s1 v rest (hd v rfl).1 (hd v rfl).2 b1.around hk
+    refine ⟨it, s2, by omega, b2.around, ?_⟩
+    conv => lhs; unfold alterLoop
+    rw [P.run_bind _ _ s lx s1 h1]
+    simp only [t1, List.contains_eq_mem, hnf, decide_false, Bool.false_eq_true, if_false]
+    rw [P.run_bind _ _ s1 v s2 h2]
+    rfl
+
+/-- The last round of the option loop: a token that is no option ends it (pushed back). -/
+theorem alter_end (hit : 1 ≤ it) (hne : found ≠ []) (hs : s.Around rest)
+    (hstop : ∀ t ∈ [Token.DURATION, .REPLICATION, .SHARD, .DEFAULT, .FUTURE, .PAST], NextNot rest t)
+    (hfound : ∀ t ∈ found, t ∈ [Token.DURATION, .REPLICATION, .SHARD, .DEFAULT, .FUTURE, .PAST]) :
+    ∃ s', s'.Around rest ∧ (alterLoop it found o).run s = .ok (o, s') := by
+  obtain ⟨it, rfl⟩ : ∃ j, it = j + 1 := ⟨it - 1, by omega⟩
+  obtain ⟨s0, hb, he⟩ := hs.scanIW_eq
+  obtain ⟨lx, s1, h1⟩ := scanIW_total s0
+  have hnot : ∀ t ∈ [Token.DURATION, .REPLICATION, .SHARD, .DEFAULT, .FUTURE, .PAST], lx.tok ≠ t :=
+    fun t ht => hstop t ht s0 lx s1 hb h1
+  have hnf : lx.tok ∉ found := fun hm => hnot _ (hfound _ hm) rfl
+  refine ⟨{ s1 with n := s1.n + 1 }, ⟨s0, hb, Or.inr ⟨lx, s1, h1, rfl⟩⟩, ?_⟩
+  conv => lhs; unfold alterLoop
+  rw [P.run_bind _ _ s lx s1 (by rw [he]; exact h1)]
+  simp only [List.contains_eq_mem, hnf, decide_false, Bool.false_eq_true, if_false]
+  split
+  · next h => exact absurd h (hnot _ (by simp))
+  · next h => exact absurd h (hnot _ (by simp))
+  · next h => exact absurd h (hnot _ (by simp))
+  · next h => exact absurd h (hnot _ (by simp))
+  · next h => exact absurd h (hnot _ (by simp))
+  · next h => exact absurd h (hnot _ (by simp))
+  · simp only [hne, if_false]
+    rw [P.run_bind _ _ s1 () _ (unscan_run s1)]
+    rfl
+
+end alter
+
+/-- What ALTER RETENTION POLICY prints after its keywords. -/
+def arpText (name db : Str) (d : Option Int) (n : Option Nat) (sh : Option Int) (dflt : Bool) (fu pa : Option Int) : Str :=
+  ' ' :: (qi name ++ ' ' :: (Token.ON.str ++ ' ' :: (qi db ++ (optDurText d ++ (optReplText n ++ (optShardText sh ++
+    (defaultText dflt ++ (optLimitText .FUTURE fu ++ optLimitText .PAST pa))))))))
+
+theorem alterRetentionPolicy_print (name db : Str) (d : Option Int) (n : Option Nat) (sh : Option Int) (dflt : Bool)
+    (fu pa : Option Int) :
+    (Statement.alterRetentionPolicy name db d (n.map Int.ofNat) dflt sh fu pa).print =
+      tx "ALTER RETENTION POLICY" ++ arpText name db d n sh dflt fu pa := by
+  have p1 : (Statement.alterRetentionPolicy name db d (n.map Int.ofNat) dflt sh fu pa).print =
+      tx "ALTER RETENTION POLICY " ++ qi name ++ tx " ON " ++ qi db ++ optDur " DURATION " d ++
+      (match n.map Int.ofNat with
+       | none => []
+       | some v => tx " REPLICATION " ++ intDigits v) ++
+      optDur " SHARD DURATION " sh ++ (if dflt then tx " DEFAULT" else []) ++
+      (match fu with
+       | some v => if v ≠ 0 then tx " FUTURE LIMIT " ++ formatDuration v else []
+       | none => []) ++
+      (match pa with
+       | some v => if v ≠ 0 then tx " PAST LIMIT " ++ formatDuration v else []
+       | none => []) := rfl
+  have hd : ∀ v : Nat, intDigits (v : Int) = natDigits v := by intro v; unfold intDigits; simp
+  have e1 : tx "ALTER RETENTION POLICY " = tx "ALTER RETENTION POLICY" ++ [' '] := by decide +kernel
+  have e2 : tx " DURATION " = ' ' :: (Token.DURATION.str ++ [' ']) := by decide +kernel
+  have e3 : tx " REPLICATION " = ' ' :: (Token.REPLICATION.str ++ [' ']) := by decide +kernel
+  have e4 : tx " SHARD DURATION " = ' ' :: (Token.SHARD.str ++ ' ' :: (Token.DURATION.str ++ [' '])) := by
+    decide +kernel
+  have e5 : tx " DEFAULT" = ' ' :: Token.DEFAULT.str := by decide +kernel
+  have e6 : tx " FUTURE LIMIT " = ' ' :: (Token.FUTURE.str ++ ' ' :: (Token.LIMIT.str ++ [' '])) := by decide +kernel
+  have e7 : tx " PAST LIMIT " = ' ' :: (Token.PAST.str ++ ' ' :: (Token.LIMIT.str ++ [' '])) := by decide +kernel
+  rw [p1, e1, e3, e5, e6, e7, tx_on]
+  unfold arpText
+  cases d <;> cases n <;> cases sh <;> cases fu <;> cases pa <;>
+    simp only [optDur, optDurText, optReplText, optShardText, optLimitText, limitText, defaultText, e2, e4, hd,
+      Option.map_some, Option.map_none, Int.ofNat_eq_natCast] <;>
+    (repeat' split) <;>
+    simp only [List.append_assoc, List.cons_append, List.nil_append, List.append_nil]
+
+/-- **Print → parse, ALTER RETENTION POLICY** (partial). For every combination of options within
+the ranges the parser guarantees, *except* the region of the recorded finding
+`zero-duration-option-not-printed`: a `FUTURE LIMIT` / `PAST LIMIT` of zero (`fu ≠ some 0`,
+`pa ≠ some 0`: such an option is not printed and comes back as absent) and a statement none of
+whose options is printed (`hany`; the printed text then ends after the database name and is rejected).
+`k` must not begin with a token that names an option. -/
+theorem alterRetentionPolicy_print_parse_partial (fuel : Nat) (s : PState) (name db : Str) (d : Option Int)
+    (n : Option Nat) (sh : Option Int) (dflt : Bool) (fu pa : Option Int) (k : Str)
+    (hex1 : Expressible name) (hex2 : Expressible db) (hd : DurOK d)
+    (hn : ∀ v, n = some v → 1 ≤ v ∧ (v : Int) ≤ maxInt32) (hsh : DurOK sh) (hfu : DurOK fu) (hpa : DurOK pa)
+    (hfz : fu ≠ some 0) (hpz : pa ≠ some 0)
+    (hany : d.isSome ∨ n.isSome ∨ sh.isSome ∨ dflt = true ∨ fu.isSome ∨ pa.isSome) (hk : TokEnd k)
+    (hstop : ∀ t ∈ [Token.DURATION, .REPLICATION, .SHARD, .DEFAULT, .FUTURE, .PAST], NextNot k t)
+    (hs : s.Before (arpText name db d n sh dflt fu pa ++ k)) :
+    ∃ s', (runHandler fuel .parseAlterRetentionPolicyStatement).run s =
+        .ok (.alterRetentionPolicy name db d (n.map Int.ofNat) dflt sh fu pa, s') ∧ s'.Around k := by
+  have e : arpText name db d n sh dflt fu pa ++ k = ' ' :: (qi name ++ ' ' :: (Token.ON.str ++ ' ' :: (qi db ++
+      (optDurText d ++ (optReplText n ++ (optShardText sh ++ (defaultText dflt ++ (optLimitText .FUTURE fu ++
+        (optLimitText .PAST pa ++ k))))))))) := by
+    simp only [arpText, List.append_assoc, List.cons_append]
+  rw [e] at hs
+  have k6 : TokEnd (optLimitText .PAST pa ++ k) := TokEnd.opt (optText_optLimit _ _) hk
+  have k5 := TokEnd.opt (optText_optLimit .FUTURE fu) k6
+  have k4 := TokEnd.opt (optText_default dflt) k5
+  have k3 := TokEnd.opt (optText_optShard sh) k4
+  have k2 := TokEnd.opt (optText_optRepl n) k3
+  have k1 := TokEnd.opt (optText_optDur d) k2
+  obtain ⟨lx, s1, h1, t1, l1, b1⟩ := scanIW_piece s [' '] (qi name) _ .IDENT name Gap.blank hs.around
+    (scansAs_ident name _ hex1 (.of_wordEnd (WordEnd.blank _)))
+  obtain ⟨s2, h2, b2⟩ := expectTok_piece s1 [' '] Token.ON.str _ .ON [] ["ON"] Gap.blank b1.around
+    (scansAs_kw .ON _ (by decide +kernel) (WordEnd.blank _))
+  obtain ⟨s3, h3, b3⟩ := parseIdent_piece s2 [' '] (qi db) _ db Gap.blank b2.around
+    (scansAs_ident db _ hex2 (.of_wordEnd k1.1))
+  obtain ⟨i1, s4, g1, b4, r1⟩ := alter_dur 8 [] {} s3 _ d hd (by simp) (by omega) b3.around k2.2.2
+  obtain ⟨i2, s5, g2, b5, r2⟩ := alter_repl i1 (addIf d.isSome .DURATION []) (setDur {} d) s4 _ n hn
+    (by simp [mem_addIf]) (by omega) b4 k3.2.1
+  obtain ⟨i3, s6, g3, b6, r3⟩ := alter_shard i2 (addIf n.isSome .REPLICATION (addIf d.isSome .DURATION []))
+    (setRepl (setDur {} d) n) s5 _ sh hsh (by simp [mem_addIf]) (by omega) b5 k4.2.2
+  obtain ⟨i4, s7, g4, b7, r4⟩ := alter_default i3 (addIf sh.isSome .SHARD (addIf n.isSome .REPLICATION (addIf d.isSome .DURATION [])))
+    (setShard (setRepl (setDur {} d) n) sh) s6 _ dflt (by simp [mem_addIf]) (by omega) b6 k5.1
+  obtain ⟨i5, s8, g5, b8, r5⟩ := alter_future i4 (addIf dflt .DEFAULT (addIf sh.isSome .SHARD (addIf n.isSome .REPLICATION (addIf d.isSome .DURATION []))))
+    (setDefault (setShard (setRepl (setDur {} d) n) sh) dflt) s7 _ fu hfu hfz (by simp [mem_addIf]) (by omega) b7 k6.2.2
+  obtain ⟨i6, s9, g6, b9, r6⟩ := alter_past i5 (addIf fu.isSome .FUTURE (addIf dflt .DEFAULT (addIf sh.isSome .SHARD (addIf n.isSome .REPLICATION (addIf d.isSome .DURATION [])))))
+    (setFuture (setDefault (setShard (setRepl (setDur {} d) n) sh) dflt) fu) s8 k pa hpa hpz (by simp [mem_addIf]) (by omega) b8 hk.2.2
+  obtain ⟨s10, b10, r7⟩ := alter_end i6 (addIf pa.isSome .PAST (addIf fu.isSome .FUTURE (addIf dflt .DEFAULT (addIf sh.isSome .SHARD (addIf n.isSome .REPLICATION (addIf d.isSome .DURATION []))))))
+    (setPast (setFuture (setDefault (setShard (setRepl (setDur {} d) n) sh) dflt) fu) pa) s9 k (by omega)
+    (by
+      intro hnil
+      have : ∀ x : Token, x ∉ addIf pa.isSome .PAST (addIf fu.isSome .FUTURE (addIf dflt .DEFAULT
+          (addIf sh.isSome .SHARD (addIf n.isSome .REPLICATION (addIf d.isSome .DURATION []))))) := by
+        intro x; rw [hnil]; simp
+      rcases hany with h | h | h | h | h | h
+      · exact this .DURATION (by simp [mem_addIf, h])
+      · exact this .REPLICATION (by simp [mem_addIf, h])
+      · exact this .SHARD (by simp [mem_addIf, h])
+      · exact this .DEFAULT (by simp [mem_addIf, h])
+      · exact this .FUTURE (by simp [mem_addIf, h])
+      · exact this .PAST (by simp [mem_addIf, h]))
+    b9 hstop
+    (by
+      intro t ht
+      simp only [mem_addIf, List.not_mem_nil, or_false] at ht
+      rcases ht with ⟨_, rfl⟩ | ⟨_, rfl⟩ | ⟨_, rfl⟩ | ⟨_, rfl⟩ | ⟨_, rfl⟩ | ⟨_, rfl⟩ <;> simp)
+  refine ⟨s10, ?_, b10⟩
+  simp only [runHandler, parseAlterRetentionPolicy]
+  rw [P.run_bind _ _ s lx s1 h1]
+  simp only [t1, reduceCtorEq, if_false, if_true]
+  rw [P.run_bind _ _ s1 name s1 (by rw [l1]; rfl), P.run_bind _ _ s1 () s2 h2, P.run_bind _ _ s2 db s3 h3,
+    P.run_bind _ _ s3 _ s10 (by rw [r1, r2, r3, r4, r5, r6]; exact r7)]
+  cases d <;> cases n <;> cases sh <;> cases dflt <;> cases fu <;> cases pa <;> rfl
+
 /-! ### non-vacuity of the family theorems
 
 Each on a concrete statement at the end of an input (`k` = the NUL sentinel). -/
@@ -1140,6 +1476,35 @@ example : (∃ sK, Returns (runHandler 10 .parseShowRetentionPoliciesStatement) 
     "my-db".toList [eofRune] (by decide) (.of_wordEnd .eof) (nextNot_eof _ (by decide))
     (init_before _ (by decide +kernel))
   exact ⟨⟨sK, h1⟩, ⟨s2, h2⟩, ⟨s3, h3⟩⟩
+
+/-- `ALTER RETENTION POLICY "default" ON db0 DURATION 1w SHARD DURATION 0s DEFAULT FUTURE LIMIT 2m`. -/
+example : ∃ s', (runHandler 10 .parseAlterRetentionPolicyStatement).run
+    (PState.init (arpText "default".toList "db0".toList (some 604800000000000) none (some 0) true (some 120000000000) none)
+      [] []) =
+      .ok (.alterRetentionPolicy "default".toList "db0".toList (some 604800000000000) none true (some 0)
+        (some 120000000000) none, s') := by
+  obtain ⟨s', h, _⟩ := alterRetentionPolicy_print_parse_partial 10
+    (PState.init (arpText "default".toList "db0".toList (some 604800000000000) none (some 0) true (some 120000000000) none)
+      [] [])
+    "default".toList "db0".toList (some 604800000000000) none (some 0) true (some 120000000000) none [eofRune]
+    (by decide) (by decide) (by intro v h; cases h; decide) (by intro v h; cases h)
+    (by intro v h; cases h; decide) (by intro v h; cases h; decide) (by intro v h; cases h) (by decide) (by decide)
+    (Or.inl rfl) .eof (stop_eof _ (by decide)) (init_before _ (by decide +kernel))
+  exact ⟨s', h⟩
+
+/-- Why the hypotheses of `alterRetentionPolicy_print_parse_partial` are needed (the recorded finding
+`zero-duration-option-not-printed`): `ALTER RETENTION POLICY p ON d PAST LIMIT 0s` is accepted, its
+statement prints without any option, and that text is rejected. -/
+theorem alterRetentionPolicy_zero_limit_counterexample :
+    (match parseStatementText "ALTER RETENTION POLICY p ON d PAST LIMIT 0s".toList [] [] with
+     | .ok (.alterRetentionPolicy n d none none false none none (some 0)) => n == "p".toList && d == "d".toList
+     | _ => false) = true ∧
+    (Statement.alterRetentionPolicy "p".toList "d".toList none none false none none (some 0)).print =
+      "ALTER RETENTION POLICY p ON d".toList ∧
+    (match parseStatementText "ALTER RETENTION POLICY p ON d".toList [] [] with
+     | .ok _ => false
+     | .error _ => true) = true := by
+  refine ⟨?_, ?_, ?_⟩ <;> decide +kernel
 
 /-! ## the dispatch keywords at text level
 
@@ -1248,7 +1613,8 @@ def familyPaths : List (Str × List Token × Handler) :=
    (tx "CREATE RETENTION POLICY", [.CREATE, .RETENTION, .POLICY], .parseCreateRetentionPolicyStatement),
    (tx "CREATE DATABASE", [.CREATE, .DATABASE], .parseCreateDatabaseStatement),
    (tx "SHOW STATS", [.SHOW, .STATS], .parseShowStatsStatement),
-   (tx "SHOW DIAGNOSTICS", [.SHOW, .DIAGNOSTICS], .parseShowDiagnosticsStatement)]
+   (tx "SHOW DIAGNOSTICS", [.SHOW, .DIAGNOSTICS], .parseShowDiagnosticsStatement),
+   (tx "ALTER RETENTION POLICY", [.ALTER, .RETENTION, .POLICY], .parseAlterRetentionPolicyStatement)]
 
 /-- Obligation on the regenerated tables: every path above is printed as its keywords, consists of
 keywords of the scanner's table, and selects its handler from the root of the dispatch tree. -/
